@@ -860,21 +860,25 @@ class citetext(Base.Command):
 
 class defcitealias(Base.Command):
     args = 'key:str text'
-    aliases = {}
     def invoke(self, tex):
         res = Base.Command.invoke(self, tex)
-        defcitealias.aliases[self.attributes['key']] = self.attributes['text']
+        doc = self.ownerDocument
+        aliases = doc.userdata.getPath('bibliography/citealiases', {})
+        aliases[self.attributes['key']] = self.attributes['text']
+        doc.userdata.setPath('bibliography/citealiases', aliases)
         return res
 
 class citetalias(citet):
     args = 'bibkeys:list:str'
     def citation(self):
-        return citet.citation(self, text=defcitealias.aliases.get(self.attributes['bibkeys'][0],''))
+        aliases = self.ownerDocument.userdata.getPath('bibliography/citealiases', {})
+        return citet.citation(self, text=aliases.get(self.attributes['bibkeys'][0],''))
 
 class citepalias(citep):
     args = 'bibkeys:list:str'
     def citation(self):
-        return citep.citation(self, text=defcitealias.aliases.get(self.attributes['bibkeys'][0],''))
+        aliases = self.ownerDocument.userdata.getPath('bibliography/citealiases', {})
+        return citep.citation(self, text=aliases.get(self.attributes['bibkeys'][0],''))
 
 class shortcites(Base.Command):
     args = 'bibkeys:list:str'
